@@ -257,7 +257,13 @@ func (ck *Check) deletionFlow(rule string) []ReaperAppend {
 		}
 		nsinks++
 		key := ck.P.siteKey(s.Call)
-		if s.Fn != a.TryDelete {
+		inChain := false
+		for _, f := range a.TryDeleteChain {
+			if s.Fn == f {
+				inChain = true
+			}
+		}
+		if !inChain {
 			// k8s.DeleteNodes → k8s.DeleteNode inside pkg/k8s is excluded by the census; anything else is a second deleter
 			ck.fail(rule, key, ck.P.instrPos(s.Call), funcID(s.Fn), "node deletion calls occur only in the delete step "+funcID(a.TryDelete), "call in "+funcID(s.Fn),
 				"a second function issues cloud / Kubernetes node deletions")
@@ -272,6 +278,13 @@ func (ck *Check) deletionFlow(rule string) []ReaperAppend {
 		}
 		pr := sliceProv(arg)
 		okv := arg != nil && len(pr.Appends) == 0 && len(pr.Roots) == 1 && pr.Roots[0] == ssa.Value(sliceParam)
+		if s.Fn != a.TryDelete && arg != nil {
+			// in a private helper of the delete step: the helper's own parameter, bound at its call to the step's
+			okv = false
+			if ictx := ck.fnChainCtx(a.TryDeleteChain, s.Fn); ictx != nil {
+				okv = ictx.Term(arg).Key() == paramTerm(sliceParam).Key()
+			}
+		}
 		ck.cond(okv, rule, key+"/arg", ck.P.instrPos(s.Call), funcID(s.Fn), "the deleted node list is exactly the delete step's slice parameter", provString(ck.P, pr),
 			"the list handed to the delete call is not (only) the list the reapers selected")
 	}
@@ -366,4 +379,53 @@ func (ck *Check) isScaleOptsField(t *Term, name string) bool {
 	}
 	f := field(ck.A.TScaleOpts, name)
 	return f != nil && t.Obj == f && t.Args[0].Kind == "param"
+}
+
+// fnChainCtx: the context of `upto`, a member of a chain of functions each calling the next exactly
+// once, with its parameters bound (transitively) to the arguments given by the chain's head.
+func (ck *Check) fnChainCtx(chain []*ssa.Function, upto *ssa.Function) *Ctx {
+	ctx, _ := ck.fnChainCtxPC(chain, upto)
+	return ctx
+}
+
+// fnChainCtxPC: as fnChainCtx, also the conjunction of the path conditions of the chain's calls.
+func (ck *Check) fnChainCtxPC(chain []*ssa.Function, upto *ssa.Function) (*Ctx, *Formula) {
+	if len(chain) == 0 {
+		return nil, nil
+	}
+	ctx := ck.P.NewCtx(chain[0])
+	prefix := FTrue
+	for i := 0; i+1 < len(chain) && chain[i] != upto; i++ {
+		sites := callsTo(chain[i], chain[i+1])
+		if len(sites) != 1 {
+			return nil, nil
+		}
+		call, ok := sites[0].(*ssa.Call)
+		if !ok {
+			return nil, nil
+		}
+		prefix = And(prefix, ctx.PC(call))
+		args := make([]*Term, len(call.Common().Args))
+		for j, av := range call.Common().Args {
+			args[j] = ctx.Term(av)
+		}
+		ctx = ctx.child(chain[i+1], call, args)
+		ctx.depth = 0
+	}
+	if ctx.fn != upto {
+		return nil, nil
+	}
+	return ctx, prefix
+}
+
+// findInvokeChain: findInvoke over the frames of a chain (outermost first), each read in its bound context.
+func (ck *Check) findInvokeChain(chain []*ssa.Function, recv *Term, method string) *Term {
+	for _, f := range chain {
+		if fctx := ck.fnChainCtx(chain, f); fctx != nil {
+			if t := ck.findInvoke(fctx, f, recv, method); t != nil {
+				return t
+			}
+		}
+	}
+	return nil
 }
